@@ -26,9 +26,10 @@ TECHNIQUE = "static analysis: exhaustive abstract evaluation of the active-tag d
 def run(chk, ix, tier):
     rules_active.check_group_logic(chk, ix)
     rules_active.check_unknown_category(chk, ix)
+    rules_active.check_provider_known_unknown(chk, ix)
     rules_active.check_exclude_composition(chk, ix)
     rules_active.check_negation_and_values(chk, ix)
     rules_active.check_grouping(chk, ix)
     rules_active.check_tag_pattern(chk, ix)
-    for r, n in (("A1", 100), ("A2", 5), ("A3", 10), ("A5", 4), ("A6", 4), ("A7", 6), ("A8", 1), ("A9", 40)):
+    for r, n in (("A1", 100), ("A2", 8), ("A3", 10), ("A5", 4), ("A6", 4), ("A7", 6), ("A8", 1), ("A9", 40)):
         chk.require_instances(r, n)
